@@ -2,7 +2,7 @@
    The translator unit BatchTables regenerates the same tables from /repo on every run (coq/Gen/BatchTables.v);
    Props/C19.v proves them equal.  Each table is what a definition of Model/Batch.v encodes:
      pin_dispatch_tests    -> class_of / is_split_class / the FGridSample case of dispatch_batch, dispatch_single
-     pin_grid_tests, guard -> tf_grid_batch (order of the special cases, all under kwargs.get('dim', 0) == 0)
+     pin_grid_tests, guard, dim -> tf_grid_batch (order of the special cases, all under dim == 0) and kw_of (how dim is found)
      pin_result_conditions -> res_batch, res_flow, res_image, res_flowfield
      pin_fingerprints      -> every other transcribed method (getitem_batch, make_instance, run_op, ...) *)
 From Coq Require Import List String.
@@ -19,13 +19,19 @@ Definition pin_dispatch_tests : list (string * list (list string)) := [
 (* ImageBatch._torch_function_grid: special-cased functions in source order *)
 Definition pin_grid_tests : list (list string) := [["torch.cat"%string]; ["torch.split"%string; "Tensor.split"%string]; ["torch.split_with_sizes"%string; "Tensor.split_with_sizes"%string]; ["torch.tensor_split"%string; "Tensor.tensor_split"%string]].
 
-Definition pin_grid_guard : string := "kwargs.get('dim', 0) == 0"%string.
+Definition pin_grid_guard : string := "dim == 0"%string.
+
+(* statements computing the dim the guard tests *)
+Definition pin_grid_dim : list string := ["dim = kwargs.get('dim')"%string; "if dim is None:
+    i = 1 if isinstance(args[0], (tuple, list)) else 2
+    dim = args[i] if len(args) > i and isinstance(args[i], int) else 0"%string; "if dim < 0:
+    dim += next((arg.ndim for arg in args if getattr(arg, '_grid', None) is not None))"%string].
 
 (* per class: typing condition of _torch_function_result, its else branch, its `func` tests *)
 Definition pin_result_conditions : list (string * string * string * list (list string)) := [
   ("ImageBatch"%string, "grid and data.ndim == grid[0].ndim + 2 and (data.shape[0] == len(grid)) and (data.shape[2:] == grid[0].shape) or (grid is not None and len(grid) == 0 and (data.ndim >= 4) and (data.shape[0] == 0))"%string, "if type(data) is not Tensor:
     data = data.as_subclass(Tensor)"%string, [["torch.clone"%string; "Tensor.clone"%string]]);
-  ("FlowFields"%string, "grid and axes is not None and (data.ndim == grid[0].ndim + 2) and (data.shape[1] == grid[0].ndim) and (data.shape[2:] == grid[0].shape) or (grid is not None and (not grid) and (data.ndim >= 4) and (data.shape[0] == 0))"%string, "data = ImageBatch._torch_function_result(func, data, grid)"%string, [["torch.clone"%string; "Tensor.clone"%string]]);
+  ("FlowFields"%string, "grid and axes is not None and (data.ndim == grid[0].ndim + 2) and (data.shape[0] == len(grid)) and (data.shape[1] == grid[0].ndim) and (data.shape[2:] == grid[0].shape) or (grid is not None and (not grid) and (axes is not None) and (data.ndim >= 4) and (data.shape[0] == 0) and (data.shape[1] == data.ndim - 2))"%string, "data = ImageBatch._torch_function_result(func, data, grid)"%string, [["torch.clone"%string; "Tensor.clone"%string]]);
   ("Image"%string, "grid is not None and data.ndim == grid.ndim + 1 and (data.shape[1:] == grid.shape)"%string, "if type(data) is not Tensor:
     data = data.as_subclass(Tensor)"%string, [["torch.clone"%string; "Tensor.clone"%string]]);
   ("FlowField"%string, "grid is not None and axes is not None and (data.ndim == grid.ndim + 1) and (data.shape[0] == grid.ndim) and (data.shape[1:] == grid.shape)"%string, "data = Image._torch_function_result(func, data, grid)"%string, [["torch.clone"%string; "Tensor.clone"%string]])].
@@ -36,17 +42,17 @@ Definition pin_fingerprints : list (string * string) := [
   ("ImageBatch._make_instance"%string, "89631b5d671a6c59fc9c"%string);
   ("ImageBatch._make_subitem"%string, "3f05f7d5cba06c854e62"%string);
   ("ImageBatch.__deepcopy__"%string, "e891440d58376f4899f4"%string);
-  ("ImageBatch._torch_function_grid"%string, "77d97b3f441655f6e49b"%string);
+  ("ImageBatch._torch_function_grid"%string, "be29a10fc7bdd9bb710f"%string);
   ("ImageBatch._torch_function_result"%string, "4eb1abfb9b46f7d08f28"%string);
-  ("ImageBatch.__torch_function__"%string, "7dcaddf5f55142404fef"%string);
+  ("ImageBatch.__torch_function__"%string, "93d9a09332982e2d1540"%string);
   ("ImageBatch.from_images"%string, "f31801db437504246e90"%string);
   ("ImageBatch.append"%string, "2ace48e5ad9a1b5f0101"%string);
   ("ImageBatch.grid"%string, "f806fb73e3a52a586274"%string);
   ("ImageBatch.grid_"%string, "dbcef7b6de6afd286b06"%string);
   ("ImageBatch.__len__"%string, "a38c3cc6289bad9442a6"%string);
-  ("ImageBatch.__getitem__"%string, "071a0e5a40a155696792"%string);
+  ("ImageBatch.__getitem__"%string, "97eb8cc34d103d92d625"%string);
   ("ImageBatch.__iter__"%string, "2c1cc4f9d679bd2cf7cf"%string);
-  ("ImageBatch.narrow"%string, "ed8b866296e54a784007"%string);
+  ("ImageBatch.narrow"%string, "d3c2ed28e613a999bead"%string);
   ("Image.__init__"%string, "af9e2701fa57f8a4a40e"%string);
   ("Image._make_instance"%string, "89631b5d671a6c59fc9c"%string);
   ("Image.__deepcopy__"%string, "f3b9750ca0ba5f1d432c"%string);
@@ -57,14 +63,16 @@ Definition pin_fingerprints : list (string * string) := [
   ("Image.grid"%string, "28f404605540e381a262"%string);
   ("Image.grid_"%string, "8587409aef75f4a01c65"%string);
   ("FlowFields.__init__"%string, "bbfcf0b0bd677e15f849"%string);
-  ("FlowFields._make_instance"%string, "11924dc1e1ec0ab961a0"%string);
+  ("FlowFields._make_instance"%string, "54709c93892d651a493c"%string);
   ("FlowFields._make_subitem"%string, "09adb100636e5a6b69b0"%string);
   ("FlowFields._torch_function_axes"%string, "dedf5e8a8a1476b3eb2c"%string);
-  ("FlowFields._torch_function_result"%string, "05a0d92223ac94bdc49e"%string);
-  ("FlowFields.__torch_function__"%string, "794e7b56d72ec52269f4"%string);
+  ("FlowFields._torch_function_result"%string, "122ac28efdd467a2e152"%string);
+  ("FlowFields.__torch_function__"%string, "ef3245c90f5c3f00b399"%string);
   ("FlowFields.__getitem__"%string, "9375b615b40a347af638"%string);
+  ("FlowFields.from_images"%string, "3db9579839b9870126fd"%string);
+  ("FlowFields.append"%string, "4c60eb1b3471fa6a85c6"%string);
   ("FlowField.__init__"%string, "f0d96efcc691d44f7475"%string);
-  ("FlowField._make_instance"%string, "58d29c11b629c2a64cc8"%string);
+  ("FlowField._make_instance"%string, "f5056dec5c8f048c3ce2"%string);
   ("FlowField._torch_function_axes"%string, "dedf5e8a8a1476b3eb2c"%string);
   ("FlowField._torch_function_result"%string, "0a73a24aef9686d0022d"%string);
   ("FlowField.__torch_function__"%string, "3186236201a20bd59cef"%string);
